@@ -7,12 +7,21 @@
                      same rows as rendering the page at once (nothing dropped or duplicated at a group
                      boundary), and one rendered row per frame row, one cell per value;
      C02_columns     column removal keeps the remaining columns in their original order.
-   C02_partial: what is missing for the full statement is (i) that the [min,max] ranges of
-   build_pages have heights summing to the row count (validated per case: the model's tags equal
-   the implementation's), and (ii) decode (escape (convert s)) = s on the C02 text domain, which is
-   C10/C11's theorem.  The predicate check_c02 is evaluated on the implementation's output. *)
+   and, assembled from them for the model's whole pagination (Proofs/PartitionProofs.v):
+     C02_section_partition  for EVERY section (frame, body without group_by, page settings, width oracle) whose
+                     pagination succeeds, the pages' row slices, concatenated in page order, are exactly the
+                     frame's rows: every row is on exactly one page, in order (row metadata has one entry per
+                     row; the greedy page numbers are non-decreasing; the [min,max] ranges of build_pages have
+                     lengths summing to the row count; post-processing re-slices by those lengths);
+     C02_page_rows   on a page rendered in segments around group headings, the rendered items are an
+                     order-preserving interleaving of the page's data rows (each exactly once, encoded at
+                     its own row offset) with heading rows.
+   C02_partial: what is still missing for the full statement is decode (escape (convert s)) = s on the C02
+   text domain, which is C10/C11's theorem, and the identification of cell k of rendered row j with
+   value (j, k) (definitional in encode_cells).  The predicate check_c02 is evaluated on the
+   implementation's output. *)
 From Coq Require Import List NArith ZArith QArith Bool Arith.
-From V Require Import Str Num Tok Items Doc Broadcast Encode Paginate Pipeline SliceProofs.
+From V Require Import Str Num Tok Items Doc Broadcast Encode Paginate Pipeline SliceProofs HeadingProofs PartitionProofs.
 Import ListNotations.
 Local Open Scope nat_scope.
 
@@ -47,6 +56,19 @@ Theorem C02_columns : forall (A : Type) (rem : list nat) (l : list A) i,
     drop_idx_from i rem l = map snd (filter fst (combine keep l)).
 Proof. exact @drop_idx_from_sub. Qed.
 Print Assumptions C02_columns.
+
+Theorem C02_section_partition : forall s pf pattrs cw pages rows,
+  section_pages s = Ok (pf, pattrs, cw, pages, rows) -> no_group_by (s_body s) ->
+  rows = f_rows pf /\ length rows = length (f_rows (s_frame s)) /\ concat (map (page_rows rows) pages) = rows.
+Proof. exact section_rows_partition. Qed.
+Print Assumptions C02_section_partition.
+
+Theorem C02_page_rows : forall ctx s a cw rows bounds prev last its,
+  prev <= length rows -> increasing (prev :: map fst bounds) -> Forall (fun b => fst b <= length rows) bounds ->
+  render_segments ctx s a cw rows bounds prev last = Ok its ->
+  exists data heads, table_encode ctx a cw (skipn prev rows) prev = Ok data /\ Shuffle data heads its.
+Proof. exact render_segments_rows. Qed.
+Print Assumptions C02_page_rows.
 
 Example C02_slices_example :
   let mk n := {| pc_num := 1; pc_total := 1; pc_start := 0; pc_len := n; pc_first := true; pc_last := true;
